@@ -385,3 +385,103 @@ def c_fold(c, op, w, s, w2, s2, shape):
     c.prove("a condition over non-random operands is recognised as constant", is_x is False)
     got = bool(val)
     c.prove("the folded truth value agrees with the solver's meaning of the condition (R-EXPR)", Iff(got, truth))
+
+
+# ---- conditionals: statements under if/else/implies never narrow a domain ------------------------------------------
+COND_SHAPES = {
+    # name: statement tree.  ("cmp", op) -> a op k ; ("in",) -> a in [k, k2] ; ("g", j) -> g_j == 0 (something else under a guard)
+    "if":            [("if", 0, [("cmp", "Lt")], None)],
+    "if_else":       [("if", 0, [("g", 1)], [("cmp", "Gt")])],
+    "implies":       [("implies", 0, [("cmp", "Le")])],
+    "nested_then":   [("if", 0, [("if", 1, [("g", 1)], None), ("cmp", "Lt")], None)],
+    "nested_else":   [("if", 0, [("if", 1, [("g", 1)], None)], [("cmp", "Lt")])],
+    "nested_in":     [("if", 0, [("implies", 1, [("g", 1)]), ("in",)], None)],
+    "implies_nest":  [("implies", 0, [("if", 1, [("g", 1)], [("g", 1)]), ("cmp", "Ge")])],
+    "deep":          [("if", 0, [("if", 1, [("implies", 0, [("g", 1)]), ("cmp", "Eq")], None), ("cmp", "Lt")], None)],
+    "elseif":        [("if", 0, [("g", 1)], [("if", 1, [("g", 0)], [("cmp", "Lt")])])],
+    "then_top":      [("if", 0, [("if", 1, [("g", 1)], None)], None), ("cmp", "Lt")],
+    "top_then":      [("cmp", "Gt"), ("if", 0, [("if", 1, [("g", 1)], None), ("cmp", "Lt")], None)],
+}
+
+
+@contract("bounds.visitor.conditional", ["C14"],
+          ["vsc.visitors.variable_bound_visitor.VariableBoundVisitor.visit_constraint_if_else",
+           "vsc.visitors.variable_bound_visitor.VariableBoundVisitor.visit_constraint_implies",
+           "vsc.visitors.variable_bound_visitor.VariableBoundVisitor.visit_expr_bin",
+           "vsc.visitors.variable_bound_visitor.VariableBoundVisitor.visit_expr_in"],
+          lambda tier, seed: [(nm,) for nm in sorted(COND_SHAPES)], max_paths=20000,
+          note="bound inference over blocks with conditionals (11 statement trees: if, if/else, implies, nesting in then / else "
+               "branches, statements after a nested conditional, else-if chain, unconditional statements before/after); 8-bit "
+               "unsigned fields, symbolic bounds; Sound: every value of a in a solution of the block (R-EXPR) is in the domain")
+def c_conditional(c, name):
+    from vsc.model.field_scalar_model import FieldScalarModel
+    from vsc.model.field_composite_model import FieldCompositeModel
+    from vsc.model.constraint_block_model import ConstraintBlockModel
+    from vsc.model.constraint_expr_model import ConstraintExprModel
+    from vsc.model.constraint_if_else_model import ConstraintIfElseModel
+    from vsc.model.constraint_implies_model import ConstraintImpliesModel
+    from vsc.model.constraint_scope_model import ConstraintScopeModel
+    from vsc.model.expr_bin_model import ExprBinModel
+    from vsc.model.expr_in_model import ExprInModel
+    from vsc.model.expr_rangelist_model import ExprRangelistModel
+    from vsc.model.expr_range_model import ExprRangeModel
+    from vsc.model.expr_fieldref_model import ExprFieldRefModel
+    from vsc.model.expr_literal_model import ExprLiteralModel
+    from vsc.model.bin_expr_type import BinExprType
+    from vsc.visitors.variable_bound_visitor import VariableBoundVisitor
+    W = 8
+    root = FieldCompositeModel("o", True)
+    a = root.add_field(FieldScalarModel("a", W, False, True))
+    gs = [root.add_field(FieldScalarModel("g%d" % i, W, False, True)) for i in range(2)]
+    root.set_used_rand(True, 0)
+    k = c.fresh_int("k", 0, 255)
+    k2 = c.fresh_int("k2", 0, 255)
+    xa = c.fresh_int("xa", 0, 255)
+    xg = [c.fresh_int("xg%d" % i, 0, 255) for i in range(2)]
+    A = ExprFieldRefModel(a)
+
+    def lit(v):
+        return ExprLiteralModel(v, False, 32)
+
+    def guard(j):
+        return ExprBinModel(ExprFieldRefModel(gs[j]), BinExprType.Eq, lit(0))
+
+    def build(tree):
+        """-> (list of statements, truth of their conjunction for the candidate xa, xg)"""
+        out, truth = [], []
+        for t in tree:
+            if t[0] == "cmp":
+                out.append(ConstraintExprModel(ExprBinModel(A, BinExprType[t[1]], lit(k))))
+                truth.append({"Lt": xa < k, "Le": xa <= k, "Gt": xa > k, "Ge": xa >= k, "Eq": xa == k}[t[1]])
+            elif t[0] == "in":
+                out.append(ConstraintExprModel(ExprInModel(A, ExprRangelistModel([ExprRangeModel(lit(k), lit(k2))]))))
+                truth.append(And(xa >= k, xa <= k2))
+            elif t[0] == "g":
+                out.append(ConstraintExprModel(guard(t[1])))
+                truth.append(xg[t[1]] == 0)
+            elif t[0] == "if":
+                ts, tt = build(t[2])
+                es, et = build(t[3]) if t[3] is not None else (None, None)
+                if es is not None and len(es) == 1 and isinstance(es[0], ConstraintIfElseModel):
+                    false_c = es[0]              # else_if: the next if statement itself
+                else:
+                    false_c = None if es is None else ConstraintScopeModel(es)
+                out.append(ConstraintIfElseModel(guard(t[1]), ConstraintScopeModel(ts), false_c))
+                g = xg[t[1]] == 0
+                truth.append(And(Implies(g, tt), Implies(Not(g), et)) if es is not None else Implies(g, tt))
+            else:
+                bs, bt_ = build(t[2])
+                out.append(ConstraintImpliesModel(guard(t[1]), bs))
+                truth.append(Implies(xg[t[1]] == 0, bt_))
+        return out, And(*truth)
+    stmts, truth = build(COND_SHAPES[name])
+    root.add_constraint(ConstraintBlockModel("c", stmts))
+    v = VariableBoundVisitor()
+    v.process([root], [])
+    dom = [(r[0], r[1]) for r in v.bound_m[a].domain.range_l]
+    c.prove("Sound(dom_a) for a block with conditionals: every value of a in a solution of the block lies in the inferred domain",
+            Implies(truth, member(xa, dom)), info="domain %r" % (dom,), assume=False)
+    for j in range(2):
+        dg = [(r[0], r[1]) for r in v.bound_m[gs[j]].domain.range_l]
+        c.prove("Sound(dom_g): the guard fields' domains are sound as well", Implies(truth, member(xg[j], dg)),
+                info="domain %r" % (dg,), assume=False)
